@@ -48,7 +48,8 @@ impl Tier {
 impl Ctx {
     /// Does this worker own the case with the given ordinal?
     pub fn mine(&self, ordinal: u64) -> bool {
-        ordinal % self.of == self.shard
+        // fail-fast after violations (see util::watch): the remaining cases are skipped
+        ordinal % self.of == self.shard && !util::watch::stopped()
     }
     pub fn quick(&self) -> bool {
         self.tier == Tier::Quick
@@ -120,6 +121,14 @@ fn main() {
                 seed,
             };
             util::limit_memory();
+            let fail_fast_after = match tier {
+                Tier::Quick => 60,
+                Tier::Thorough => 1800,
+            };
+            if let Ok(k) = KnownFindings::load(&verif_dir().join("known_findings.json")) {
+                util::watch::set_known(prop.id, k);
+            }
+            util::watch::start(util::watch::Mode::Worker(std::path::PathBuf::from(&out), fail_fast_after));
             let mut report = Report::default();
             // a panic escaping a property's own per-case catch_unwind is a machinery error
             let res = std::panic::catch_unwind(std::panic::AssertUnwindSafe(|| {
@@ -130,6 +139,9 @@ fn main() {
                     "worker {shard}/{of} panicked outside a case: {}",
                     util::panic_message(&p)
                 ));
+            }
+            if util::watch::stopped() {
+                report.cap_hit(format!("fail-fast: violations were found and the budget of {fail_fast_after} s per worker was used up; the remaining cases were skipped (this run is a counterexample, not a coverage statement)"));
             }
             std::fs::write(&out, serde_json::to_vec(&report).unwrap()).unwrap();
             // do not run destructors of leaked actors etc.
@@ -144,6 +156,7 @@ fn main() {
             let s = std::fs::read_to_string(file).expect("read replay");
             let v: Value = serde_json::from_str(&s).expect("parse replay");
             let case = v.get("case").cloned().unwrap_or(v.clone());
+            util::watch::start(util::watch::Mode::Replay { prop: prop.id.to_string(), file: file.clone() });
             let r1 = (prop.replay)(&case);
             let r2 = (prop.replay)(&case);
             match (r1, r2) {
@@ -215,6 +228,45 @@ fn run_parent(prop: &PropDef, tier: Tier, seed: i64, args: &[String]) -> i32 {
         children.push((shard, child, out, log));
     }
     let mut merged = Report::default();
+    // safety net (never a verdict): end the run if the machine runs out of memory or the tier's
+    // wall-clock cap is exceeded
+    let wall_cap = std::time::Duration::from_secs(match tier {
+        Tier::Quick => 30 * 60,
+        Tier::Thorough => 10 * 3600,
+    });
+    loop {
+        let mut running = 0;
+        for (_, child, _, _) in children.iter_mut() {
+            if matches!(child.try_wait(), Ok(None)) {
+                running += 1;
+            }
+        }
+        if running == 0 {
+            break;
+        }
+        let avail_kb: u64 = std::fs::read_to_string("/proc/meminfo")
+            .ok()
+            .and_then(|s| {
+                s.lines()
+                    .find(|l| l.starts_with("MemAvailable:"))
+                    .and_then(|l| l.split_whitespace().nth(1).and_then(|x| x.parse().ok()))
+            })
+            .unwrap_or(u64::MAX);
+        let out_of_memory = avail_kb < 3 * 1024 * 1024;
+        let out_of_time = start.elapsed() > wall_cap;
+        if out_of_memory || out_of_time {
+            for (_, child, _, _) in children.iter_mut() {
+                let _ = child.kill();
+            }
+            merged.machinery_error(if out_of_memory {
+                "run stopped: less than 3 GiB of memory available on the machine".to_string()
+            } else {
+                format!("run stopped: wall-clock cap of {} s for this tier exceeded", wall_cap.as_secs())
+            });
+            break;
+        }
+        std::thread::sleep(std::time::Duration::from_millis(200));
+    }
     for (shard, mut child, out, log) in children {
         let status = child.wait().expect("wait worker");
         match std::fs::read(&out)
